@@ -376,10 +376,17 @@ func (in *interp) equals(t types.Type, x, y value) value {
 	switch cx := x.(type) {
 	case codecNum, codecBlob:
 		return in.deepEqual(cx, y, map[[2]*value]bool{})
+	case codecDec20:
+		if cy, ok := y.(codecDec20); ok {
+			return mkval(in.ctx.Eq(cx.t, cy.t), types.Bool)
+		}
+		unsupported("comparison of a %%020d-formatted number with plain bytes")
 	}
 	switch y.(type) {
 	case codecNum, codecBlob:
 		return false // a plain byte never equals an encoded object
+	case codecDec20:
+		unsupported("comparison of a %%020d-formatted number with plain bytes")
 	}
 	if sx, ok := x.(*Sym); ok {
 		if sx.K == types.Float64 {
@@ -528,9 +535,19 @@ func normStr(s symstr) value {
 	return string(buf)
 }
 
+func concByte(v value) (uint8, bool) { b, ok := v.(uint8); return b, ok }
+
 func (in *interp) strEq(a, b symstr) value {
 	if len(a.b) != len(b.b) {
 		return false
+	}
+	// any concretely different pair of bytes decides the comparison
+	for i := range a.b {
+		x, okx := concByte(a.b[i])
+		y, oky := concByte(b.b[i])
+		if okx && oky && x != y {
+			return false
+		}
 	}
 	var conj []*smt.Term
 	for i := range a.b {
@@ -549,10 +566,22 @@ func (in *interp) strEq(a, b symstr) value {
 // strLess returns a < b lexicographically (orEq: a <= b).
 func (in *interp) strLess(a, b symstr, orEq bool) value {
 	c := in.ctx
-	// fold from the end: res = (a[i] < b[i]) || (a[i]==b[i] && rest)
 	n := len(a.b)
 	if len(b.b) < n {
 		n = len(b.b)
+	}
+	// skip the concretely equal prefix; a concretely different pair decides at once
+	start := 0
+	for start < n {
+		x, okx := concByte(a.b[start])
+		y, oky := concByte(b.b[start])
+		if !okx || !oky {
+			break
+		}
+		if x != y {
+			return x < y
+		}
+		start++
 	}
 	var rest *smt.Term
 	if len(a.b) < len(b.b) {
@@ -562,8 +591,31 @@ func (in *interp) strLess(a, b symstr, orEq bool) value {
 	} else {
 		rest = c.Bool(false)
 	}
-	for i := n - 1; i >= 0; i-- {
-		x, y := in.term(a.b[i]), in.term(b.b[i])
+	// positions after the first concretely different pair (if any) are irrelevant
+	end := n
+	for i := start; i < n; i++ {
+		x, okx := concByte(a.b[i])
+		y, oky := concByte(b.b[i])
+		if okx && oky && x != y {
+			end = i + 1
+			break
+		}
+	}
+	if end < n {
+		rest = c.Bool(false) // overwritten by the deciding pair below
+	}
+	for i := end - 1; i >= start; i-- {
+		var x, y *smt.Term
+		dx, okx := a.b[i].(codecDec20)
+		dy, oky := b.b[i].(codecDec20)
+		switch {
+		case okx && oky:
+			x, y = dx.t, dy.t
+		case okx || oky:
+			unsupported("ordering of a %%020d-formatted number against plain bytes")
+		default:
+			x, y = in.term(a.b[i]), in.term(b.b[i])
+		}
 		rest = c.Or(c.Cmp("bvult", x, y), c.And(c.Eq(x, y), rest))
 	}
 	return mkval(rest, types.Bool)
